@@ -262,3 +262,11 @@ Theorem c01_mpegts_accounting_nonvacuous : exists m0,
        = [(0%nat, true, 45000); (1%nat, true, 45000); (0%nat, false, 90000); (0%nat, true, 135000); (1%nat, true, 90000); (0%nat, false, 180000)].
 Proof. exact ts_account_example. Qed.
 Print Assumptions c01_mpegts_accounting_nonvacuous.
+
+(* the leading track never loses a unit *)
+Theorem c01_spec_leading_keeps_everything : forall cf sp ti smp0 x,
+  nth_error (sp_trk sp) ti = Some x -> 0 <= s_dts (sp_incoming cf smp0) ->
+  exists x', nth_error (sp_trk (sp_unit cf true sp ti smp0)) ti = Some x'
+             /\ map core (kept x') = map core (kept x) ++ [core (sp_incoming cf smp0)].
+Proof. exact spec_leading_keeps_everything. Qed.
+Print Assumptions c01_spec_leading_keeps_everything.
